@@ -150,18 +150,22 @@ def parse_text(text):
     return ast.dump(ast.parse('(' + text + '\n)', mode='eval'))
 
 
+def _tokens(text):
+    """tokens of the text enclosed in parentheses; [] when it does not tokenize
+    (callers decide validity through ast / eval first)"""
+    try:
+        return list(tokenize.generate_tokens(io.StringIO('(' + text + '\n)').readline))
+    except (tokenize.TokenError, SyntaxError, IndentationError):
+        return []
+
+
 def comments_of(text):
     """COMMENT tokens of the text, in order (text enclosed in parentheses)"""
-    out = []
-    for tok in tokenize.generate_tokens(io.StringIO('(' + text + '\n)').readline):
-        if tok.type == tokenize.COMMENT:
-            out.append(tok.string)
-    return out
+    return [tok.string for tok in _tokens(text) if tok.type == tokenize.COMMENT]
 
 
 def string_tokens(text):
-    return [tok.string for tok in tokenize.generate_tokens(io.StringIO('(' + text + '\n)').readline)
-            if tok.type == tokenize.STRING]
+    return [tok.string for tok in _tokens(text) if tok.type == tokenize.STRING]
 
 
 def strip_comments_term(t):
